@@ -271,6 +271,10 @@ impl Binder {
                 out = None;
             }
         }
+        // DISTINCT ON (…) is evaluated in the scope of this SELECT's FROM
+        for e in s["distinct"]["On"].as_array().cloned().unwrap_or_default() {
+            self.expr(&e, &rels, outer, &aliases, "DISTINCT ON");
+        }
         if let Some(sel) = s.get("selection").filter(|x| !x.is_null()) {
             self.expr(sel, &rels, outer, &[], "WHERE");
         }
